@@ -137,7 +137,8 @@ def bor(a, b):
         if a[1] is None or b[1] is None:
             return (max(a[0], b[0]), None)
         n = max(_bits_for(a[1]), _bits_for(b[1]))
-        return (max(a[0], b[0]), (1 << n) - 1)
+        # x | y = x + y - (x & y) <= x + y for non-negative operands
+        return (max(a[0], b[0]), min((1 << n) - 1, a[1] + b[1]))
     # a negative operand makes the result negative or keeps sign unknown
     lo = None
     if a[0] is not None and b[0] is not None:
